@@ -153,12 +153,14 @@ func httpProvider(name, file string) *Comp {
 func grpcGun(name string, conf any, def func() any) *Comp {
 	return &Comp{Kind: KGun, Name: name, Conf: reflect.TypeOf(conf), Default: def,
 		Gen: map[string]G{
-			"target":           endpoint,
-			"answlog.enabled":  constant(false),
-			"answlog.path":     sampled("answ.log", "./a.log"),
-			"answlog.filter":   sampled("all", "warning", "error"),
-			"reflect_port":     intRange(0, 65535),
-			"reflect_metadata": func(t *rapid.T) any { return map[string]any{"auth": rapid.SampledFrom([]string{"Token", "x y"}).Draw(t, "md")} },
+			"target":          endpoint,
+			"answlog.enabled": constant(false),
+			"answlog.path":    sampled("answ.log", "./a.log"),
+			"answlog.filter":  sampled("all", "warning", "error"),
+			"reflect_port":    intRange(0, 65535),
+			"reflect_metadata": func(t *rapid.T) any {
+				return map[string]any{"auth": rapid.SampledFrom([]string{"Token", "x y"}).Draw(t, "md")}
+			},
 		},
 	}
 }
@@ -174,8 +176,16 @@ var (
 	byLabel   map[string]*Comp
 
 	// CLI and Pool are pseudo components: the root config struct and one pool.
-	CLI  = &Comp{Kind: "cli", Name: "root", Conf: reflect.TypeOf(cli.CliConfig{}), Default: func() any { return *cli.DefaultConfig() }}
-	Pool = &Comp{Kind: "pool", Name: "pool", Conf: reflect.TypeOf(engine.InstancePoolConfig{})}
+	CLI = &Comp{Kind: "cli", Name: "root", Conf: reflect.TypeOf(cli.CliConfig{}), Default: func() any { return *cli.DefaultConfig() },
+		Gen: map[string]G{
+			"log.file":                   sampled("stdout", "stderr", "pandora.log"),
+			"monitoring.expvar.port":     intRange(1, 65535),
+			"monitoring.cpuprofile.file": sampled("cpuprofile.log", "cpu.prof"),
+			"monitoring.memprofile.file": sampled("memprofile.log", "mem.prof"),
+		}}
+	Pool = &Comp{Kind: "pool", Name: "pool", Conf: reflect.TypeOf(engine.InstancePoolConfig{}),
+		Required: []string{"ammo", "result", "gun", "rps", "startup"},
+		Gen:      map[string]G{"id": sampled("p", "pool-1", "Main Pool")}}
 )
 
 func buildTable() []*Comp {
